@@ -364,3 +364,6 @@ def _concrete_replay(env, cfg):
         env.claim('expected_contribution_is_exact_value', Fraction(exp[f]) == Fraction(oracle[f]),
                   detail=f"feature {f!r}: exact expectation over the library's {len(results)} equally explored draw sequences is "
                          f"{Fraction(exp[f])}, exhaustive enumeration over the whole storage gives {Fraction(oracle[f])}")
+
+
+META['explanation'] += ' History group: conditional expectation of a SECOND explanation given the storage content it started from (an imputer that caches the storage is biased there).'
